@@ -655,7 +655,8 @@ def knn_filter(points:torch.Tensor, k:int, pdim:int=None, radius:float=None, ord
     if radius is not None:
         count = torch.sum(dist <= radius, dim=-1) - 1
         rmask = count >= k
-        points, dist = points[rmask], dist[rmask]
+        _, idx = dist[rmask].topk(k+1, dim=-1, largest=False, sorted=True)
+        return points[idx].mean(dim=-2)
 
     _, idx = dist.topk(k+1, dim=-1, largest=False, sorted=True)
     shape = points.size() + torch.Size([k+1])
